@@ -60,6 +60,7 @@ type Leg struct {
 	Got     string   `json:"got"`      // canonical text of what the receiving side got
 	Seen    bool     `json:"seen"`     // a frame was observed
 	NoModel bool     `json:"no_model"` // too large to be written as a correspondence case
+	Raw     bool     `json:"raw"`      // carries raw data (signature r), which the model has no type for: oracle only
 	Step    int      `json:"step"`     // sequences: index of the step (Record.Trace) the leg belongs to
 	InSeq   bool     `json:"in_seq"`   // sequences: the passage is a step of Record.Seq (compared there)
 }
@@ -104,6 +105,8 @@ type Driver struct {
 	pending []target           // objects returned by methods, still to be exercised
 	size    int                // >= 0: containers of drawn values are sized (sized.go); -1: wg.GenVal
 	last    map[string]*wg.Val // property (key + instance) -> the value it was last given
+	dynKind string             // "": dynamic values of drawn kinds; otherwise all of that kind (dyn.go)
+	plain   int                // > 0: drawing the members of an opaque composite
 }
 
 // target: one object of an interface reached through one proxy.
@@ -246,6 +249,7 @@ func (d *Driver) Run() {
 	if len(os.Args) > 4 {
 		steps, _ = strconv.Atoi(os.Args[4])
 	}
+	dynKinds := len(os.Args) > 5 && os.Args[5] == "dyn"
 	d.rng = hx.NewRng(seed)
 	time.AfterFunc(40*time.Second, func() { d.fatal("driver deadline") })
 	defer func() {
@@ -291,6 +295,10 @@ func (d *Driver) Run() {
 		// containers at the sizes asked for, as arguments, results and payloads
 		for _, n := range sizes {
 			d.sizedPass(main, n)
+		}
+		// every action with a dynamic value, once per kind of dynamic value
+		if dynKinds {
+			d.dynPass(main, maxLen)
 		}
 		// the same object through the proxy the generated WithContext returns
 		d.viaContext(main, maxLen)
@@ -397,6 +405,11 @@ func leg(what string, kind int, tys []*wg.Ty, vals []*wg.Val, data []byte, seen 
 	// correspondence case is written only when its text stays small
 	if terms+len(l.Bytes) > maxCaseText {
 		l.NoModel, l.Vals = true, nil
+	}
+	for _, v := range vals {
+		if hasRaw(v) {
+			l.NoModel, l.Raw, l.Vals = true, true, nil
+		}
 	}
 	if len(l.Doc) > 4096 {
 		l.Doc = ""
